@@ -111,12 +111,16 @@ func (H) Execute(scAny any, cfg simrt.Config, st *core.Stats) (*simrt.Outcome, *
 			switch sc.Ops[i] {
 			case 'P':
 				next++
-				if sc.Kind == "queue" {
-					q.Enqueue(next)
-				} else {
-					s.Push(next)
+				val := next
+				if next%7 == 3 {
+					val = 0 // the zero value is an element like any other
 				}
-				model = append(model, next)
+				if sc.Kind == "queue" {
+					q.Enqueue(val)
+				} else {
+					s.Push(val)
+				}
+				model = append(model, val)
 			case 'O', 'K':
 				pop := sc.Ops[i] == 'O'
 				if sc.Kind == "queue" {
